@@ -15,7 +15,7 @@ import (
 
 func partARun(r *eng.Run) {
 	p := newPartA(r)
-	gs := groups(r.Thorough())
+	gs := spread(groups(r.Thorough()))
 	if f := os.Getenv("C12_GROUP_LIMIT"); f != "" { // debugging aid: only the first k groups
 		var k int
 		fmt.Sscan(f, &k)
@@ -31,10 +31,10 @@ func partARun(r *eng.Run) {
 	total := 0
 	perAPI := map[string]int{}
 	for _, g := range gs {
-		if _, ok := perAPI[g.API]; !ok {
-			perAPI[g.API] = p.dom.count(g)
+		if _, ok := perAPI[countKey(g)]; !ok {
+			perAPI[countKey(g)] = p.dom.count(g)
 		}
-		total += perAPI[g.API]
+		total += perAPI[countKey(g)]
 	}
 	r.Set("partA_cases_per_group", perAPI)
 	r.Set("partA_option_groups", len(gs))
@@ -62,7 +62,7 @@ func partARun(r *eng.Run) {
 	r.Set("partA_worker_crashes_attributed", p.crashN)
 	r.Set("partA_cases_not_executed_after_fatal", p.skipped)
 	if p.skipped > 0 {
-		r.Incomplete(fmt.Sprintf("%d part-A cases were not executed: their option group had already crashed the process %d times (stack overflow) in cases where, as in these, a chain of >= 2 error handlers is invoked", p.skipped, crashesBeforeSkip))
+		r.Incomplete(fmt.Sprintf("%d part-A cases were not executed: their (API, handler list, walker kind) had already crashed the process %d times (stack overflow) in cases where, as in these, a chain of >= 2 error handlers is invoked", p.skipped, crashesBeforeSkip))
 	}
 	if p.expired {
 		r.Incomplete("part A: budget used up before all option groups were run")
@@ -70,6 +70,27 @@ func partARun(r *eng.Run) {
 	for _, g := range p.abandoned {
 		r.Incomplete("part A: group abandoned after too many worker crashes: " + g)
 	}
+}
+
+// spread permutes the groups by a fixed stride so that a run cut short by its
+// budget has still sampled every kind of option group (the set is unchanged).
+func spread(gs []*Group) []*Group {
+	n := len(gs)
+	stride := 37
+	gcd := func(a, b int) int {
+		for b != 0 {
+			a, b = b, a%b
+		}
+		return a
+	}
+	for gcd(stride, n) != 1 {
+		stride++
+	}
+	out := make([]*Group, 0, n)
+	for i := 0; i < n; i++ {
+		out = append(out, gs[(i*stride)%n])
+	}
+	return out
 }
 
 func main() {
